@@ -3,5 +3,5 @@ CONSTANTS
   Alpha = {0, 1, 13, 27, 63, 64, 127}
   MaxLen = 6
   MidGuard = FALSE
-INVARIANTS StreamIsDef LenOK RoundTripN FillIsCR ImplAllowed
+INVARIANTS StreamIsDef FastIsDef LenOK RoundTripN FillIsCR ImplAllowed
 CHECK_DEADLOCK FALSE
